@@ -7,6 +7,10 @@ what it returns is passed as exact rationals (float.as_integer_ratio) and compar
 same model instantiated over Q (function `check` of Model/Rot.v, tolerance stated there), by vm_compute.
 Oracle: the property judged on the implementation alone (proper rotation, maps v1 to v2, distances and
 handedness kept, only the selected atoms move, dihedral reaches its target, reported RMSD is the RMSD left).
+Ensemble operations are additionally run on ensembles of every array shape -- n_conformers == n_atoms, == 3, == 1,
+n_atoms == 3, == 1 (synthetic chains; the bundled ensemble cut down / extended to 1, 3 and 17 conformers) -- with
+per-conformer stacks, core sizes and mapping counts that coincide with those numbers; every operation is judged
+conformer by conformer, and compared inside Coq with Model/RotEns.v (`echeck`).
 """
 import math, os, json, itertools
 from fractions import Fraction as Fr
@@ -14,6 +18,7 @@ import vlib
 from vlib import cq_list, cq_Q, cq_nat, cq_opt
 
 HEADER = "From Coq Require Import List ZArith QArith.\nImport ListNotations.\nFrom Molli Require Import Common.Field3 Model.Rot.\n"
+HEADER_E = HEADER.replace("Model.Rot.", "Model.Rot Model.RotEns.")
 TOL_DEFAULT = 1.0e-8          # default `tol` of rotation_matrix_from_vectors
 ORACLE_EPS = 1e-6             # oracle tolerance on matrices / coordinates / angles (floats; the model shards use 1e-9)
 MOLS = ["box_backbone_mol2", "cinchonidine_query", "dendrobine_mol2", "dmf_mol2", "fxyl_mol2",
@@ -845,6 +850,379 @@ def run_ens_align(ml, ens0, idxs, ref, vec, repose=None):
     return term, viol, {}
 
 
+# ------------------------------------------------------------------ ensembles of every shape (array-shape coincidences)
+# The ensemble array is (n_conformers, n_atoms, 3); per-conformer stacks are (n_conformers, 3) / (n_conformers, 3, 3).
+# Whenever n_conformers equals n_atoms (or 3, or 1) or n_atoms equals 3 (or 1), axes can be confused without any
+# shape error.  The bundled ensemble (7 x 17) never is in that region, so ensembles are synthesised for a grid of
+# shapes and the bundled one is cut down / extended to 1, 3 and 17 conformers.
+ENS_GRID_QUICK = [(1, 1), (1, 3), (1, 4), (2, 2), (2, 3), (2, 5), (3, 1), (3, 3), (3, 4), (3, 6), (4, 1), (4, 4),
+                  (4, 6), (5, 3), (5, 5), (6, 4), (6, 6), (7, 7)]
+ENS_PENTANE_QUICK = [1, 3, 17]
+XKINDS = ["t1", "t2", "rot", "roteach", "cat", "core", "scale"]
+XOPNAME = {"t1": "translate-global", "t2": "translate-per-conformer", "rot": "rotate", "roteach": "rotate-per-conformer",
+           "cat": "center_at_atom", "core": "center_at_core", "scale": "scale"}
+ELTS = ["C", "N", "O", "C", "F", "C", "S", "C"]
+_ENSCACHE = {}
+
+
+def shape_classes(nc, na):
+    out = []
+    if nc == na:
+        out.append("nc==na")
+    if nc == 3:
+        out.append("nc==3")
+    if na == 3:
+        out.append("na==3")
+    if nc == 1:
+        out.append("nc==1")
+    if na == 1:
+        out.append("na==1")
+    return out or ["generic"]
+
+
+def ens_specs(ctx):
+    specs = []
+    grid = list(ENS_GRID_QUICK)
+    pent = list(ENS_PENTANE_QUICK)
+    if ctx.thorough:
+        grid = sorted(set(grid) | {(a, b) for a in range(1, 9) for b in range(1, 9)} | {(10, 10), (12, 12), (13, 5), (5, 13)})
+        pent = [1, 2, 3, 5, 7, 12, 17, 20]
+    for nc, na in grid:
+        specs.append({"src": "synth", "nc": nc, "na": na, "seed": ctx.rng.randrange(10 ** 6)})
+    for k in pent:
+        specs.append({"src": "pentane", "nc": k, "na": 17, "seed": ctx.rng.randrange(10 ** 6)})
+    return specs
+
+
+def fmat(M):
+    return [[float(e) for e in row] for row in M]
+
+
+def nontrivial_rot(rng):
+    while True:
+        M = fmat(quat_matrix(rng))
+        if max(abs(M[i][j]) for i in range(3) for j in range(3) if i != j) > 0.05:
+            return M
+
+
+def synth_coords(nc, na, seed):
+    """nc perturbed, re-posed copies of a zig-zag chain of na atoms, on the 2^-12 grid (exact dyadic rationals)."""
+    import random
+    np = np_()
+    r = random.Random(f"c11-ens/{nc}/{na}/{seed}")
+    base = np.array([[1.25 * i + r.uniform(-.3, .3), (0.7 if i % 2 else -0.7) + r.uniform(-.3, .3), r.uniform(-.8, .8)]
+                     for i in range(na)])
+    E = []
+    for _ in range(nc):
+        R = np.array(nontrivial_rot(r))
+        X = (base + np.array([[r.uniform(-.12, .12) for _ in range(3)] for _ in range(na)])) @ R
+        X = X + np.array([r.uniform(-4, 4) for _ in range(3)])
+        E.append(np.round(X * 4096.0) / 4096.0)
+    return np.array(E).reshape(nc, na, 3)
+
+
+def synth_mol(ml, X, name):
+    np = np_()
+    na = len(X)
+    xyz = f"{na}\n{name}\n" + "".join(f"{ELTS[i % len(ELTS)]} {float(x)!r} {float(y)!r} {float(z)!r}\n" for i, (x, y, z) in enumerate(X))
+    m = ml.Molecule.loads_xyz(xyz)
+    for i in range(na - 1):
+        m.connect(i, i + 1)
+    m.coords = np.asarray(X, dtype=float)
+    return m
+
+
+def build_ens(ml, spec):
+    """The ensemble a spec stands for (cached; callers work on fresh copies)."""
+    import random
+    np = np_()
+    key = json.dumps(spec, sort_keys=True)
+    if key in _ENSCACHE:
+        return _ENSCACHE[key]
+    if spec["src"] == "synth":
+        E = synth_coords(spec["nc"], spec["na"], spec["seed"])
+        mols = [synth_mol(ml, E[c], f"chain{spec['na']}") for c in range(spec["nc"])]
+    else:
+        base = load_ens(ml)
+        B = np.asarray(base.coords, dtype=float)
+        r = random.Random(f"c11-pentane/{spec['nc']}/{spec['seed']}")
+        mols = []
+        for c in range(spec["nc"]):
+            m = ml.Molecule(base[c % base.n_conformers])
+            X = B[c % base.n_conformers]
+            if c >= base.n_conformers:      # further conformers: re-posed copies of the bundled ones
+                X = X @ np.array(nontrivial_rot(r)) + np.array([r.uniform(-3, 3) for _ in range(3)])
+            m.coords = np.round(X * 4096.0) / 4096.0
+            mols.append(m)
+    ens = ml.ConformerEnsemble(mols)
+    _ENSCACHE[key] = ens
+    return ens
+
+
+def spec_tag(spec, ens):
+    return f"{spec['src']} ensemble, n_conformers={ens.n_conformers}, n_atoms={ens.n_atoms} [{','.join(shape_classes(ens.n_conformers, ens.n_atoms))}]"
+
+
+def fresh_ens(ml, ens0):
+    np = np_()
+    ens = ml.ConformerEnsemble(ens0)
+    ens.coords = np.asarray(ens0.coords, dtype=float).copy()
+    return ens
+
+
+def pick_core(rng, nc, na, lo=1):
+    """Core indices; sizes that coincide with n_conformers, 3 or n_atoms are preferred."""
+    top = min(na, 6)
+    lo = min(lo, top)
+    cand = sorted({s for s in (nc, 3, na, 1) if lo <= s <= top})
+    s = rng.choice(cand) if cand and rng.random() < 0.6 else rng.randint(lo, top)
+    return rng.sample(range(na), s)
+
+
+def gen_xop(rng, kind, nc, na):
+    def q():
+        return float(Fr(rng.randint(-2048, 2048), 128))
+    if kind == "t1":
+        return ["t1", [q(), q(), q()]]
+    if kind == "t2":
+        return ["t2", [[q(), q(), q()] for _ in range(nc)]]
+    if kind == "rot":
+        return ["rot", nontrivial_rot(rng)]
+    if kind == "roteach":
+        return ["roteach", [nontrivial_rot(rng) for _ in range(nc)]]
+    if kind == "cat":
+        return ["cat", rng.randrange(na)]
+    if kind == "core":
+        return ["core", pick_core(rng, nc, na)]
+    return ["scale", rng.choice([0.5, 2.0, 1.5, 0.75, 1.25])]
+
+
+def judge_xop(kind, arg, A, B, tag):
+    """One ensemble operation took coordinates A to B: None, or (signature, text).  Every conformer is judged on its
+    own (distances, handedness), then against the documented motion computed conformer by conformer."""
+    np = np_()
+    nc, na = A.shape[:2]
+    name = XOPNAME[kind]
+    scale = 1.0 + float(np.abs(A).max())
+    if B.shape != A.shape:
+        return f"ensemble:{name}:shape-changed", f"{tag}: {name} changed the coordinate array from {A.shape} to {B.shape}"
+    if not np.isfinite(B).all():
+        return f"ensemble:{name}:not-finite", f"{tag}: {name} left non-finite coordinates"
+    want = np.empty_like(A)
+    for c in range(nc):
+        if kind == "t1":
+            want[c] = A[c] + np.array(arg)
+        elif kind == "t2":
+            want[c] = A[c] + np.array(arg[c])
+        elif kind == "rot":
+            want[c] = A[c] @ np.array(arg)
+        elif kind == "roteach":
+            want[c] = A[c] @ np.array(arg[c])
+        elif kind == "cat":
+            want[c] = A[c] - A[c][arg]
+        elif kind == "core":
+            want[c] = A[c] - A[c][arg].mean(axis=0)
+        else:
+            want[c] = A[c] * float(arg)
+    if kind == "scale":
+        f = float(arg)
+        for c in range(nc):
+            d0, d1 = dist_matrix(A[c]), dist_matrix(B[c])
+            if np.abs(d1 - abs(f) * d0).max() > ORACLE_EPS * scale * max(1.0, abs(f)):
+                i, j = np.unravel_index(np.abs(d1 - abs(f) * d0).argmax(), d0.shape)
+                return (f"ensemble:scale:not-uniform", f"{tag}: conformer {c} after scale({f}): distance between atoms {i} and {j} "
+                        f"went from {d0[i, j]:.9f} to {d1[i, j]:.9f}")
+    else:
+        for c in range(nc):
+            X0, X1 = A[c], B[c]
+            if kind in ("rot", "roteach"):        # a rotation about the origin: the origin is one more point of the rigid body
+                X0, X1 = np.vstack([X0, np.zeros((1, 3))]), np.vstack([X1, np.zeros((1, 3))])
+            sv = shape_violation(X0, X1, range(len(X0)), 31 + c)
+            if sv:
+                return (f"ensemble:{name}:{sv[0]}", f"{tag}: conformer {c} after {name}"
+                        f"{' (row ' + str(na) + ' = the origin)' if len(X0) > na else ''}: {sv[1]}")
+    if kind == "cat" and np.abs(B[:, arg]).max() > ORACLE_EPS * scale:
+        return "ensemble:center_at_atom-not-at-origin", f"{tag}: center_at_atom({arg}) leaves that atom at {B[:, arg].tolist()[:2]}"
+    if kind == "core" and np.abs(B[:, arg].mean(axis=1)).max() > ORACLE_EPS * scale:
+        return "ensemble:center_at_core-not-at-origin", f"{tag}: center_at_core({arg}) leaves the core centroid at {B[:, arg].mean(axis=1).tolist()[:2]}"
+    dev = np.abs(B - want).max(axis=(1, 2))
+    if dev.max() > ORACLE_EPS * scale * 4:
+        c = int(dev.argmax())
+        return (f"ensemble:{name}:wrong-result", f"{tag}: conformer {c} after {name} is {dev[c]:.6f} away from where that motion puts it "
+                f"(every conformer kept its shape)")
+    return None
+
+
+def xopq(kind, arg):
+    if kind == "t1":
+        return f"(XT1 {vq(arg)})"
+    if kind == "t2":
+        return f"(XT2 {rowsq(arg)})"
+    if kind == "rot":
+        return f"(XRot {mq(arg)})"
+    if kind == "roteach":
+        return f"(XRotEach {cq_list(mq(M) for M in arg)})"
+    if kind == "cat":
+        return f"(XCat {cq_nat(arg)})"
+    if kind == "core":
+        return f"(XCore {natl(arg)})"
+    return f"(XScale {cq_Q(fr(arg))})"
+
+
+def shape_counts(ens, ops):
+    return (["ens-shape:" + c for c in shape_classes(ens.n_conformers, ens.n_atoms)] + ["ens-op:" + XOPNAME[k] for k in ops if k in XOPNAME]
+            + ["ens-op:" + k for k in ops if k not in XOPNAME])
+
+
+def run_ensx(ml, spec, ops):
+    """A sequence of ensemble operations on an ensemble of a given shape, judged after every operation."""
+    np = np_()
+    ens0 = build_ens(ml, spec)
+    ens = fresh_ens(ml, ens0)
+    tag = spec_tag(spec, ens)
+    info = {"counts": shape_counts(ens, [k for k, _ in ops])}
+    cur = np.asarray(ens.coords, dtype=float).copy()
+    E0 = cur.copy()
+    viol = None
+    for kind, arg in ops:
+        try:
+            if kind == "t1":
+                ens.translate(list(arg))
+            elif kind == "t2":
+                ens.translate(np.array(arg))
+            elif kind in ("rot", "roteach"):
+                ens.rotate(np.array(arg))
+            elif kind == "cat":
+                ens.center_at_atom(ens.atoms[arg])
+            elif kind == "core":
+                ens.center_at_core(list(arg))
+            else:
+                ens.scale(float(arg))
+        except Exception as e:  # noqa
+            if kind == "roteach" and viol is None:
+                # rotate() with a stack is what align_to_ref_coords relies on today; a rotate() that rejects stacks is
+                # judged through the alignment cases, not here
+                return None, None, dict(info, counts=info["counts"] + ["ens-op:rotate-stack-rejected"])
+            return None, viol or (f"ensemble:{XOPNAME[kind]}:raises-{type(e).__name__}", f"{tag}: {XOPNAME[kind]} raised {e!r}"), info
+        new = np.asarray(ens.coords, dtype=float).copy()
+        if viol is None:
+            viol = judge_xop(kind, arg, cur, new, tag)
+        if new.shape != cur.shape:
+            return None, viol, info
+        cur = new
+    term = f"(XEns {ensq(E0.tolist())} {cq_list(xopq(k, a) for k, a in ops)} {ensq(cur.tolist())})"
+    return term, viol, info
+
+
+def ensx_align_setup(rng, E0, nmap):
+    np = np_()
+    nc, na = E0.shape[:2]
+    core = pick_core(rng, nc, na)
+    idxs = [core]
+    for _ in range(nmap - 1):
+        p = core[:]
+        rng.shuffle(p)
+        idxs.append(p)
+    R = np.array(nontrivial_rot(rng))
+    ref = E0[0][core] @ R + np.array([[rng.uniform(-0.05, 0.05) for _ in range(3)] for _ in core])
+    ref = ref - ref.mean(axis=0)
+    vec = None if rng.random() < 0.5 else [float(Fr(rng.randint(-512, 512), 64)) for _ in range(3)]
+    return idxs, ref, vec
+
+
+def run_ensx_align(ml, spec, idxs, ref, vec):
+    """ConformerEnsemble.align_to_ref_coords on an ensemble of a given shape: every conformer moved rigidly, the k-th
+    value returned is the RMSD conformer k is left with, and re-posing the ensemble does not change the values."""
+    np = np_()
+    ens0 = build_ens(ml, spec)
+    ens = fresh_ens(ml, ens0)
+    tag = spec_tag(spec, ens)
+    info = {"counts": shape_counts(ens, ["align"]) + [f"ens-align:mappings={len(idxs)}", "ens-align:vec=" + ("yes" if vec is not None else "no")]}
+    E0 = np.asarray(ens.coords, dtype=float).copy()
+    nc, na = E0.shape[:2]
+    rec = Recorder()
+    try:
+        rs = ens.align_to_ref_coords(rec, idxs, RefGeom(ref), vec)
+        rs = [float(x) for x in rs]
+    except Exception as e:  # noqa
+        return None, ("align:ensemble-raises-" + type(e).__name__, f"{tag}: ConformerEnsemble.align_to_ref_coords raised {e!r}"), info
+    E1 = np.asarray(ens.coords, dtype=float).copy()
+    viol = None
+    if E1.shape != E0.shape or len(rs) != nc:
+        return None, ("align:ensemble-shape-changed", f"{tag}: coordinates {E0.shape} -> {E1.shape}, {len(rs)} values returned"), info
+    for ci in range(nc):
+        sv = shape_violation(E0[ci], E1[ci], range(na), 51 + ci)
+        if sv:
+            viol = ("align:ensemble-" + sv[0], f"{tag}: conformer {ci}: {sv[1]}")
+            break
+        pose = E1[ci] - (np.array(vec) if vec is not None else 0.0)
+        achieved = min(float(np.sqrt(((pose[ix] - ref) ** 2).sum() / len(ix))) for ix in idxs)
+        if abs(achieved - rs[ci]) > ORACLE_EPS:
+            viol = ("align:ensemble-reported-rmsd-not-achieved", f"{tag}: conformer {ci}: returned {rs[ci]:.9f}, pose left has RMSD {achieved:.9f}")
+            break
+    k = len(idxs)
+    if len(rec.results) != nc * k:
+        return None, viol, dict(info, skipped="callback not called once per conformer and mapping")
+    inq = cq_list(cq_list(rowsq(P.tolist()) for P in rec.inputs[i * k:(i + 1) * k]) for i in range(nc))
+    resq = cq_list(cq_list(f"({mq(M.tolist())}, {cq_Q(fr(rr))})" for M, rr in rec.results[i * k:(i + 1) * k]) for i in range(nc))
+    term = (f"(XEnsAlign {ensq(E0.tolist())} {cq_list(natl(ix) for ix in idxs)} {inq} {resq} {cq_opt(vec, vq)} {ensq(E1.tolist())} "
+            f"{cq_list(cq_Q(fr(x)) for x in rs)})")
+    if viol is None:
+        import random
+        rr = random.Random(len(term))
+        Rp = np.array(nontrivial_rot(rr))
+        tp = np.array([rr.uniform(-5, 5) for _ in range(3)])
+        ens2 = fresh_ens(ml, ens0)
+        ens2.coords = np.asarray(ens0.coords, dtype=float) @ Rp + tp
+        try:
+            rs2 = [float(x) for x in ens2.align_to_ref_coords(Recorder(), idxs, RefGeom(ref), vec)]
+            dev = max(abs(x - y) for x, y in zip(rs, rs2)) if len(rs2) == len(rs) else float("inf")
+            if dev > ORACLE_EPS:
+                viol = ("align:ensemble-pose-dependent", f"{tag}: align_to_ref_coords(core {idxs[0]}) returned {[round(x, 6) for x in rs][:3]}..., "
+                        f"but {[round(x, 6) for x in rs2][:3]}... after re-posing the same ensemble")
+        except Exception as e:  # noqa
+            viol = ("align:ensemble-raises-" + type(e).__name__, f"{tag}: align_to_ref_coords raised {e!r} on a re-posed ensemble")
+    return term, viol, info
+
+
+def ensx_cases(ctx, specs=None, kinds=None, rng=None):
+    """(kind, key, replay_dict, thunk) for the ensemble-shape family."""
+    import molli as ml
+    np = np_()
+    rng = rng or ctx.rng
+    for spec in (specs if specs is not None else ens_specs(ctx)):
+        ens0 = build_ens(ml, spec)
+        nc, na = ens0.n_conformers, ens0.n_atoms
+        cls = shape_classes(nc, na)[0]
+        plans = []
+        for rep_ in range(1 if not ctx.thorough else 3):
+            for kind in (kinds or XKINDS):
+                if kind in XKINDS:
+                    plans.append([gen_xop(rng, kind, nc, na)])
+            if kinds is None:
+                plans.append([gen_xop(rng, rng.choice(XKINDS), nc, na) for _ in range(rng.randint(3, 5))])
+        for ops in plans:
+            rd = {"kind": "ensx", "spec": spec, "ops": ops}
+            yield "ensemble:" + cls, ("ensx", json.dumps(spec, sort_keys=True), json.dumps(ops)), rd, \
+                (lambda spec=spec, ops=ops: run_ensx(ml, spec, [tuple(o) for o in ops]))
+        if kinds is None or "align" in kinds:
+            E0 = np.asarray(ens0.coords, dtype=float)
+            for nmap in ((1, 3) if not ctx.thorough else (1, 2, 3, 1, 2, 3)):
+                idxs, ref, vec = ensx_align_setup(rng, E0, nmap)
+                rd = {"kind": "ensxalign", "spec": spec, "idxs": idxs, "ref": ref.tolist(), "vec": vec}
+                yield "align:ensemble:" + cls, ("ensxalign", json.dumps(spec, sort_keys=True), json.dumps(idxs), json.dumps(ref.tolist())), rd, \
+                    (lambda spec=spec, idxs=idxs, ref=ref, vec=vec: run_ensx_align(ml, spec, idxs, ref, vec))
+
+
+def find_mol(ml, name):
+    """Bundled molecule, or conformer c of a synthetic ensemble ('synth:nc:na:seed#c')."""
+    if name.startswith("synth:"):
+        body, c = name[6:].split("#")
+        nc, na, seed = (int(x) for x in body.split(":"))
+        return ml.Molecule(build_ens(ml, {"src": "synth", "nc": nc, "na": na, "seed": seed})[int(c)])
+    return dict(load_mols(ml)).get(name)
+
+
 # ------------------------------------------------------------------ the run
 def all_cases(ctx):
     """Yields (kind, key, replay_dict, thunk) ; thunk() -> (term|None, violation|None, info)."""
@@ -911,6 +1289,26 @@ def all_cases(ctx):
         idxs, ref, vec = align_setup(ctx, ml.Molecule(ens[0]))
         rd = {"kind": "ensalign", "idxs": idxs, "ref": ref.tolist(), "vec": vec}
         yield "align:ensemble", ("ensalign", json.dumps(idxs), json.dumps(ref.tolist())), rd, (lambda idxs=idxs, ref=ref, vec=vec: run_ens_align(ml, ens, idxs, ref, vec))
+    # ensembles of every shape: n_conformers == n_atoms, == 3, == 1; n_atoms == 3, == 1 (and generic ones)
+    specs = ens_specs(ctx)
+    yield from ensx_cases(ctx, specs)
+    # the same coincidences one level down: molecules of 1..4 atoms (coords of shape (1,3), (3,3), ...)
+    for spec in specs:
+        if spec["src"] != "synth" or spec["na"] > 4:
+            continue
+        name = f"synth:{spec['nc']}:{spec['na']}:{spec['seed']}#{rng.randrange(spec['nc'])}"
+        m = find_mol(ml, name)
+        yield "centroid:tiny", ("centroid", name), {"kind": "centroid", "mol": name}, (lambda name=name, m=m: run_centroid(ml, name, m))
+        ops = gen_gops(ctx, rng.randint(1, 3))
+        rd = {"kind": "geom", "mol": name, "idx": None, "ops": ops}
+        yield "geom:whole:tiny", ("geom", name, None, json.dumps(ops)), rd, (lambda name=name, m=m, ops=ops: run_geom(ml, name, m, None, ops))
+        idx = rng.sample(range(m.n_atoms), rng.randint(1, m.n_atoms))
+        ops = gen_gops(ctx, rng.randint(1, 3))
+        rd = {"kind": "geom", "mol": name, "idx": idx, "ops": ops}
+        yield "geom:substructure:tiny", ("geom", name, tuple(idx), json.dumps(ops)), rd, (lambda name=name, m=m, idx=idx, ops=ops: run_geom(ml, name, m, idx, ops))
+        idxs, ref, vec = ensx_align_setup(rng, np.asarray(m.coords, dtype=float)[None, :, :], rng.randint(1, 3))
+        rd = {"kind": "align", "mol": name, "idxs": idxs, "ref": ref.tolist(), "vec": vec}
+        yield "align:molecule:tiny", ("align", name, json.dumps(idxs), json.dumps(ref.tolist())), rd, (lambda name=name, m=m, idxs=idxs, ref=ref, vec=vec, u=rng.random(): run_align_case(ml, name, m, idxs, ref, vec, u))
 
 
 def run_dihedral_case(ml, name, m, quad):
@@ -958,6 +1356,8 @@ def run(ctx, rep):
                     "CPython/numpy executing molli (array arithmetic, IEEE rounding, np.random, math.sin/cos/atan2)",
                     "reference Kabsch callback (numpy SVD) used to exercise align_to_ref_coords: its contract is a Section hypothesis"]
     rep.assumptions += ["model vs implementation agree within 1e-9 absolute (1e-9 + 1e-14/(1+c) in the 1/(1+c)-amplified general branch)",
+                        "ensemble-shape family: rotate() given an (n_conformers,3,3) stack is judged when it returns (a rotate() that rejects "
+                        "stacks is judged through align_to_ref_coords only); scale(f) is compared with the model and judged as a similarity (f > 0)",
                         "atoms selected by yield_bfs are taken from the implementation (graph search is C15); the oracle recomputes the far side independently",
                         "arctan2 is not modelled: dihedral()'s result is compared through its sine and cosine",
                         "antiparallel branch: the orthogonal vector comes from np.random (hidden state); it is observed through a recording "
@@ -965,6 +1365,7 @@ def run(ctx, rep):
                         "the theorem covers every choice, determinism of the choice is C12"]
     ok, out, where = vlib.build_props(ctx, rep, "C11")
     terms, owners = [], []
+    eterms, eowners = [], []
     found = False
     oracle_viol = {}
     n_by_kind = {}
@@ -978,6 +1379,8 @@ def run(ctx, rep):
                 rep.count("antiparallel:o-" + ("observed" if info.get("o_observed") else "unobserved"))
         for e in info.get("edits", ()):
             rep.count("parent-edit:" + e)
+        for t in info.get("counts", ()):
+            rep.count(t)
         if viol:
             found = True
             sig = "C11:" + (kind.split(":")[0] + ":" if kind.split(":")[0] in ("vec", "axis") else "") + viol[0]
@@ -988,6 +1391,10 @@ def run(ctx, rep):
             rep.count("not-compared")
             continue
         rep.case(key=json.dumps(key, default=str), sample=(rd if i % 97 == 0 else None))
+        if term.startswith("(XEns"):
+            eterms.append(term)
+            eowners.append(i)
+            continue
         terms.append(term)
         owners.append(i)
     # spread the expensive kinds evenly over the shards (cases are generated kind by kind)
@@ -998,10 +1405,22 @@ def run(ctx, rep):
     owners = [owners[j] for j in order]
     size = max(1, -(-len(terms) // nsh))
     bad = vlib.run_shards(ctx, rep, "c11", HEADER, "check", terms, shard=size, timeout=900, case_type="case")
-    rep.extra["shard_cases"] = len(terms)
-    if bad is None:
+    # the ensemble-shape family has its own case type and checker (Model/RotEns.v); bigger ensembles first, dealt round-robin
+    esize = 30 if not ctx.thorough else 60
+    ensh = max(1, -(-len(eterms) // esize))
+    eorder = sorted(range(len(eterms)), key=lambda j: -len(eterms[j]))
+    eorder = [eorder[j] for s0 in range(ensh) for j in range(s0, len(eorder), ensh)]
+    eterms = [eterms[j] for j in eorder]
+    eowners = [eowners[j] for j in eorder]
+    ebad = vlib.run_shards(ctx, rep, "c11e", HEADER_E, "echeck", eterms, shard=max(1, -(-len(eterms) // ensh)), timeout=900, case_type="ecase")
+    rep.extra["shard_cases"] = len(terms) + len(eterms)
+    if bad is None or ebad is None:
         vlib.broken_obligation(rep, "corr_c11", "a correspondence shard did not compile: " + str(rep.extra.get("shard_errors", ""))[-800:], found)
-    elif bad:
+        bad = bad or []
+        ebad = ebad or []
+    owners = owners + eowners
+    bad = list(bad) + [len(terms) + b for b in ebad]
+    if bad:
         unexplained = [owners[b] for b in bad if owners[b] not in oracle_viol]
         rep.extra["mismatching_cases"] = [items[owners[b]][2] for b in bad[:10]]
         if unexplained:
@@ -1034,6 +1453,16 @@ def neighbourhood(ctx, rd):
             out += replay(ctx, dict(rd, v1=v1, v2=v2))
             if out:
                 break
+    if rd.get("kind") in ("ensx", "ensxalign") and not out:
+        # the same operations on ensembles of every coincidence shape
+        import random
+        import molli as ml
+        kinds = sorted({o[0] for o in rd["ops"]}) if rd["kind"] == "ensx" else ["align"]
+        for _, _, rd2, thunk in ensx_cases(ctx, kinds=kinds, rng=random.Random(1)):
+            _, viol, _ = thunk()
+            if viol:
+                out.append(vlib.Violation("C11:" + viol[0], viol[1], rd2))
+                break
     return out
 
 
@@ -1050,8 +1479,7 @@ def replay(ctx, data):
         pre = "C11:axis:"
     else:
         pre = "C11:"
-        mols = dict(load_mols(ml))
-        m = mols.get(data.get("mol"))
+        m = find_mol(ml, data["mol"]) if data.get("mol") else None
         if k == "dih" and m is not None:
             res = run_dihedral_case(ml, data["mol"], m, tuple(data["quad"]))
         elif k == "rotdih" and m is not None:
@@ -1070,6 +1498,10 @@ def replay(ctx, data):
             res = run_ens(ml, load_ens(ml), [tuple(o) for o in data["ops"]])
         elif k == "ensalign":
             res = run_ens_align(ml, load_ens(ml), data["idxs"], np.array(data["ref"]), data["vec"])
+        elif k == "ensx":
+            res = run_ensx(ml, data["spec"], [tuple(o) for o in data["ops"]])
+        elif k == "ensxalign":
+            res = run_ensx_align(ml, data["spec"], data["idxs"], np.array(data["ref"]), data["vec"])
     if res is None or res[1] is None:
         return []
     return [vlib.Violation(pre + res[1][0], res[1][1], data)]
